@@ -74,6 +74,11 @@ def run_spec(spec, rec):
             good = oc[0] == 'exc' and oc[1] == 'WorkerLostError' and ('Job: %d' % rj['jid']) in oc[2]
         elif k == 'overlimit':
             good = oc[0] == 'exc' and oc[1] == 'TimeLimitExceeded'
+        elif k == 'termjob' and rj.get('term_issued') is False:
+            # not accepted within 15 s on a loaded machine: terminate_job was never
+            # called, the job is an ordinary one
+            rec.count('real:terminate_job_not_issued')
+            good = oc == ['ok', ['v', tag]]
         elif k == 'termjob':
             good = oc[0] == 'exc' and oc[1] == 'Terminated'
         if not good:
